@@ -626,3 +626,149 @@ Section PB.
     rewrite E in R. rewrite R. rewrite (IH Hr). reflexivity.
   Qed.
 End PB.
+
+(* ---------------------------------------------------------------- label names beyond ASCII *)
+Lemma substring_prefix : forall n r x, (n <= String.length r)%nat -> substring 0 n (r ++ x) = substring 0 n r.
+Proof.
+  induction n as [|n IH]; intros r x H.
+  - destruct r; destruct x; reflexivity.
+  - destruct r as [|a r]; [cbn in H; lia|]. cbn [append substring]. rewrite IH; [reflexivity|cbn in H; lia].
+Qed.
+Lemma substring_sdrop : forall n r, (n <= String.length r)%nat -> (substring 0 n r ++ sdrop n r)%string = r.
+Proof.
+  induction n as [|n IH]; intros r H.
+  - destruct r; reflexivity.
+  - destruct r as [|a r]; [cbn in H; lia|]. cbn [substring sdrop append]. rewrite IH; [reflexivity|cbn in H; lia].
+Qed.
+Lemma substring_length : forall n r, (n <= String.length r)%nat -> String.length (substring 0 n r) = n.
+Proof.
+  induction n as [|n IH]; intros r H.
+  - destruct r; reflexivity.
+  - destruct r as [|a r]; [cbn in H; lia|]. cbn [substring String.length]. rewrite IH; [reflexivity|cbn in H; lia].
+Qed.
+
+Section UNAMES.
+  Variable uletter udigit : string -> bool.
+
+  Lemma name_scan_len : forall r k f, name_scan uletter udigit k f r = true -> (k <= String.length r)%nat.
+  Proof.
+    induction r as [|a r IH]; intros k f H.
+    - cbn in H. apply Nat.eqb_eq in H. subst. cbn. lia.
+    - destruct k as [|k]; [lia|]. cbn [name_scan] in H. specialize (IH k false H). cbn [String.length]. lia.
+  Qed.
+
+  Lemma ident_len_scan : forall s skip first c t, name_scan uletter udigit skip first s = true -> stops_ident c = true ->
+    ident_len uletter udigit skip first (s ++ String c t) = String.length s.
+  Proof.
+    induction s as [|a r IH]; intros skip first c t H Hc.
+    - cbn in H. apply Nat.eqb_eq in H. subst skip. cbn [append ident_len String.length].
+      unfold stops_ident in Hc. apply andb_prop in Hc. destruct Hc as [Hc H3]. apply andb_prop in Hc. destruct Hc as [H1 H2].
+      rewrite H1. apply negb_true_iff in H2, H3. rewrite H2, H3. rewrite andb_false_r. reflexivity.
+    - destruct skip as [|k].
+      + cbn [name_scan] in H. cbn [append ident_len String.length].
+        destruct (byte a <? 128) eqn:L.
+        * apply andb_prop in H. destruct H as [Hk Hr]. rewrite Hk. rewrite (IH 0%nat false c t Hr Hc). reflexivity.
+        * destruct (rune_width (byte a) r) as [|[|k]] eqn:W; try discriminate H.
+          apply andb_prop in H. destruct H as [H Hr]. apply andb_prop in H. destruct H as [Hw Hl]. apply Nat.eqb_eq in Hw.
+          pose proof (name_scan_len _ _ _ Hr) as Hlen.
+          assert (W' : rune_width (byte a) (r ++ String c t) = S (S k)).
+          { rewrite <- (substring_sdrop (S k) r Hlen). rewrite append_assoc.
+            pose proof (substring_length (S k) r Hlen) as SL.
+            rewrite (rune_width_app (byte a) (substring 0 (S k) r) _); rewrite SL; [reflexivity|lia|exact Hw]. }
+          rewrite W'. rewrite (substring_prefix (S k) r _ Hlen). rewrite Hl.
+          rewrite (IH (S k) false c t Hr Hc). reflexivity.
+      + cbn [name_scan] in H. cbn [append ident_len String.length]. rewrite (IH k false c t H Hc). reflexivity.
+  Qed.
+
+  Lemma next_tok_uname : forall name c t, uname_ok uletter udigit name = true -> stops_ident c = true ->
+    next_tok uletter udigit (name ++ String c t) = (TIdent name, String c t).
+  Proof.
+    intros name c t H Hc. destruct name as [|a s]; [discriminate H|]. unfold uname_ok in H.
+    pose proof (ident_len_scan (String a s) 0%nat true c t H Hc) as IL.
+    assert (Hb : is_ws (byte a) = false /\ (byte a =? 47) = false /\ (byte a =? 34) = false).
+    { cbn [name_scan] in H. destruct (byte a <? 128) eqn:L.
+      - apply andb_prop in H. destruct H as [Hk _]. cbn [negb andb] in Hk. rewrite orb_false_r in Hk.
+        destruct (alpha_facts _ Hk) as [_ [W [S1 Q]]]. tauto.
+      - apply N.ltb_ge in L. unfold is_ws. rewrite !orb_false_iff, !N.eqb_neq. lia. }
+    destruct Hb as [W [S1 Q]].
+    unfold next_tok. cbn [append]. rewrite (skip_blank_token a _ W S1). rewrite Q.
+    change (String a (s ++ String c t)) with ((String a s) ++ String c t)%string. rewrite IL.
+    cbn [String.length]. change (S (String.length s)) with (String.length (String a s)).
+    rewrite substring_app, sdrop_app. reflexivity.
+  Qed.
+
+  Notation next_tok' := (next_tok uletter udigit).
+  Notation parse_pairs' := (parse_pairs uletter udigit).
+
+  Lemma parse_pair_step_u : forall f name els tail buf, uname_ok uletter udigit name = true -> forallb qel_ok els = true ->
+    parse_pairs' (S f) (name ++ String EQ (String QUOTE (quoted_text els ++ String QUOTE tail))) buf =
+    match next_tok' tail with
+    | (TCh c, s4) => if c =? 125 then Some (buf ++ [(name, quoted_value els)])%list
+                     else if c =? 44 then parse_pairs' f s4 (buf ++ [(name, quoted_value els)])%list else None
+    | _ => None
+    end.
+  Proof.
+    intros f name els tail buf Hn He. cbn [parse_pairs].
+    rewrite (next_tok_uname name EQ _ Hn eq_refl).
+    rewrite (next_tok_punct uletter udigit EQ _ eq_refl). change (byte EQ =? 61) with true. cbv iota.
+    rewrite (next_tok_string uletter udigit QUOTE els tail eq_refl He).
+    rewrite (unq_quoted_gen els He). reflexivity.
+  Qed.
+
+  Lemma parse_pairs_print_u : forall blank rest ls f buf, all_bytes is_ws blank = true -> ls <> [] -> forallb (upair_ok uletter udigit) ls = true ->
+    (List.length ls <= f)%nat ->
+    parse_pairs' f (print_pairs blank ls ++ String RBRACE rest) buf = Some (buf ++ labels_written ls)%list.
+  Proof.
+    intros blank rest. induction ls as [|l r IH]; intros f buf Hb Hne Hok Hf; [congruence|].
+    cbn [forallb] in Hok. apply andb_prop in Hok. destruct Hok as [Hl Hr].
+    unfold upair_ok in Hl. apply andb_prop in Hl. destruct Hl as [Hn He].
+    destruct f as [|f]; [cbn in Hf; lia|].
+    destruct r as [|l2 r2].
+    - cbn [print_pairs]. rewrite print_pair_app. rewrite (parse_pair_step_u f _ _ _ buf Hn He).
+      rewrite (next_tok_punct uletter udigit RBRACE rest eq_refl). change (byte RBRACE =? 125) with true. reflexivity.
+    - change (print_pairs blank (l :: l2 :: r2)) with (print_pair l ++ String COMMA (blank ++ print_pairs blank (l2 :: r2)))%string.
+      rewrite append_assoc. rewrite print_pair_app. rewrite (parse_pair_step_u f _ _ _ buf Hn He).
+      cbn [append]. rewrite (next_tok_punct uletter udigit COMMA _ eq_refl). change (byte COMMA =? 125) with false. change (byte COMMA =? 44) with true. cbv iota.
+      rewrite append_assoc. rewrite (parse_pairs_ws uletter udigit f blank _ _ Hb).
+      rewrite IH; [|exact Hb|discriminate|exact Hr|cbn [List.length] in *; lia].
+      cbn [labels_written map]. rewrite <- app_assoc. reflexivity.
+  Qed.
+
+  Lemma parse_print_roundtrip_u : forall blank ls rest buf,
+    all_bytes is_ws blank = true -> ls <> [] -> forallb (upair_ok uletter udigit) ls = true ->
+    parse_labels uletter udigit (print_labels blank ls ++ rest) buf = Some (buf ++ labels_written ls)%list.
+  Proof.
+    intros blank ls rest buf Hb Hne Hok. unfold parse_labels, print_labels. cbn [append].
+    rewrite strip_bom_brace. rewrite (next_tok_punct uletter udigit LBRACE _ eq_refl). change (byte LBRACE =? 123) with true. cbv iota.
+    rewrite append_assoc. cbn [append]. apply parse_pairs_print_u; try assumption.
+    cbn [String.length]. rewrite length_append. pose proof (print_pairs_length blank ls). lia.
+  Qed.
+
+  (* an ASCII name of the Loki syntax is such a name, for every oracle *)
+  Lemma ascii_name_scan : forall s, all_bytes (fun b => is_alpha_ b || is_digit b) s = true -> name_scan uletter udigit 0 false s = true.
+  Proof.
+    induction s as [|a s IH]; intro H; [reflexivity|].
+    cbn [all_bytes] in H. apply andb_prop in H. destruct H as [Ha Hs]. cbn [name_scan].
+    assert (L : byte a <? 128 = true).
+    { apply orb_prop in Ha. destruct Ha as [Ha|Ha]; [apply (alpha_facts _ Ha) | apply (digit_facts _ Ha)]. }
+    rewrite L. cbn [negb andb]. rewrite Ha. apply IH. exact Hs.
+  Qed.
+  Lemma label_name_ok_uname : forall s, label_name_ok s = true -> uname_ok uletter udigit s = true.
+  Proof.
+    intros [|a s] H; [discriminate H|]. cbn [label_name_ok] in H. apply andb_prop in H. destruct H as [Ha Hs].
+    unfold uname_ok. cbn [name_scan]. destruct (alpha_facts _ Ha) as [L _]. rewrite L, Ha. cbn [orb andb]. apply ascii_name_scan. exact Hs.
+  Qed.
+End UNAMES.
+Section UNAMES2.
+  Variable uletter udigit : string -> bool.
+  Lemma written_texts_distinguish_u : forall blank1 blank2 ls1 ls2,
+    all_bytes is_ws blank1 = true -> all_bytes is_ws blank2 = true -> ls1 <> [] -> ls2 <> [] ->
+    forallb (upair_ok uletter udigit) ls1 = true -> forallb (upair_ok uletter udigit) ls2 = true ->
+    print_labels blank1 ls1 = print_labels blank2 ls2 -> labels_written ls1 = labels_written ls2.
+  Proof.
+    intros b1 b2 ls1 ls2 Hb1 Hb2 N1 N2 O1 O2 E.
+    pose proof (parse_print_roundtrip_u uletter udigit b1 ls1 EmptyString [] Hb1 N1 O1) as R1.
+    pose proof (parse_print_roundtrip_u uletter udigit b2 ls2 EmptyString [] Hb2 N2 O2) as R2.
+    rewrite E in R1. rewrite R1 in R2. inversion R2. reflexivity.
+  Qed.
+End UNAMES2.
